@@ -359,6 +359,27 @@ func (ex *Exec) checkPost(st *State, fc *FnCtx, results []Val, retN int) {
 		}
 		ex.goal(st, "post", name, t, ct.clauseProps(cl), fmt.Sprintf("%s:%d", cl.File, cl.Line), "ensures "+cl.Text, cl)
 	}
+	if ct.ErrsFromCallees {
+		// no new failure modes: the returned error is nil or one a callee returned on this path
+		for i, r := range rtv {
+			if !isErrorType(sig.Results().At(i).Type()) {
+				continue
+			}
+			alts := []Term{eq(ifaceTag(r.T), intLit(0))}
+			for _, e := range st.calleeErrs {
+				alts = append(alts, eq(r.T, e))
+			}
+			if ct.ErrsUnless != "" {
+				u, err := env.evalBool(ct.ErrsUnless)
+				if err != nil {
+					ex.specError(&Clause{Kind: "errsfromcallees", Text: ct.ErrsUnless, File: ct.File, Line: ct.Line}, err)
+				} else {
+					alts = append(alts, u)
+				}
+			}
+			ex.goal(st, "post", fc.prefix+"#post(errsfromcallees)", or(alts...), ct.Props, fmt.Sprintf("%s:%d", ct.File, ct.Line), "a returned error is nil or an error returned by a callee on this path", nil)
+		}
+	}
 	for i, cl := range ct.Covers {
 		t, err := env.evalBool(cl.Text)
 		if err != nil {
